@@ -106,6 +106,10 @@ func (h *hbState) atomic(t *thread, p interface{}, write bool) {
 		addr = uintptr(unsafe.Pointer(v))
 	case *int32:
 		addr = uintptr(unsafe.Pointer(v))
+	case *uint64:
+		addr = uintptr(unsafe.Pointer(v))
+	case *uint32:
+		addr = uintptr(unsafe.Pointer(v))
 	default:
 		return
 	}
